@@ -113,6 +113,7 @@ def member(ty: Ty, rng, small=False, hashable=False, depth=0):
     if k == 'pattern':
         return ch(BPATTERNS[:2] if hashable else BPATTERNS) if ty.x.get('of') == 'bytes' else ch(PATTERNS)
     if k == 'any': return arbitrary(rng, 2, hashable)
+    if k == 'cc': return ch(('gb', 'us', 'cn', 'uk', 'gb', 'us', 'xx'))
     if k == 'sub':
         return member(Ty(ty.x['base']), rng, small, hashable)
     if k in ('list', 'seq', 'deque', 'set'):
@@ -155,7 +156,8 @@ def member(ty: Ty, rng, small=False, hashable=False, depth=0):
         return dc_member(ty, rng, small, hashable, depth)
     if k == 'ndarray':
         dt = ty.x.get('dtype')
-        leaf = (lambda: ch((1, 2, 3, 0, -5))) if dt == 'int' else (lambda: ch((1.5, 2, 0.0, -1.25, float('nan'))))
+        leaf = {'int': lambda: ch((1, 2, 3, 0, -5)), 'bool': lambda: ch((True, False)), 'complex': lambda: ch((1 + 2j, 2, 0.5, -1j))}.get(
+            dt, lambda: ch((1.5, 2, 0.0, -1.25, float('nan'))))
         shape = ch(((), (0,), (2,), (3,), (2, 2), (2, 3), (1, 2, 2), (2, 0)))
         def mk(sh):
             if not sh: return leaf()
